@@ -255,6 +255,39 @@ def http_request(port, method, path, body=None, timeout=30):
         return 0, b""
 
 
+def split_post(port, raw, cut, timeout=60):
+    """POST / with a Content-Length body written in two pieces (cut inside a multi-byte character), a pause in between"""
+    try:
+        s = socket.create_connection(("127.0.0.1", port), timeout=timeout)
+        s.settimeout(timeout)
+        head = ("POST / HTTP/1.1\r\nHost: 127.0.0.1\r\nContent-Length: %d\r\nConnection: close\r\n\r\n" % len(raw)).encode()
+        s.sendall(head + raw[:cut])
+        time.sleep(0.05)
+        s.sendall(raw[cut:])
+        data = b""
+        while True:
+            part = s.recv(65536)
+            if not part:
+                break
+            data += part
+        s.close()
+        headb, _, body = data.partition(b"\r\n\r\n")
+        status = int(headb.split(b" ", 2)[1]) if headb.startswith(b"HTTP/") else 0
+        if b"transfer-encoding: chunked" in headb.lower():
+            out, rest = b"", body
+            while rest:
+                line, _, rest = rest.partition(b"\r\n")
+                n = int(line.split(b";")[0] or b"0", 16)
+                if n == 0:
+                    break
+                out += rest[:n]
+                rest = rest[n + 2:]
+            body = out
+        return status, body
+    except (OSError, ValueError, IndexError):
+        return 0, b""
+
+
 def raw_request(port, payload, timeout=5):
     try:
         s = socket.create_connection(("127.0.0.1", port), timeout=timeout)
